@@ -76,7 +76,7 @@ def alleles_trace(draw):
         trace.append([list(pool[fav if draw(st.integers(0, 3)) > 0 else draw(st.integers(0, n_pool - 1))]) for _ in range(n_step)])
     burn = draw(st.integers(0, n_step - 1))
     thr = draw(st.sampled_from([0.6, 0.6, 0.5, 0.3, 0.75, 1.0, 0.0]))
-    return {"kind": "alleles_trace", "trace": trace, "n_allele": n_allele, "burn": burn, "threshold": thr}
+    return {"kind": "alleles_trace", "trace": trace, "n_allele": n_allele, "burn": burn, "threshold": thr, "perm_seed": draw(st.integers(0, 10**6))}
 
 
 @st.composite
@@ -391,6 +391,19 @@ def check_alleles(ctx, case):
     with guard(problems, "alleles_trace"):
         mt = GenotypeAllelesMultiTrace(arr, llks, case["n_allele"])
         check_alleles_obj(problems, "call", mt, chains, case["burn"], case["n_allele"], ploidy, case["threshold"])
+        # allele frequencies / counts / occurrence must not depend on the order in which alleles are stored in a step
+        if not problems and ploidy > 1:
+            rs = np.random.RandomState(case.get("perm_seed", 0))
+            shuffled = arr.copy()
+            for c in range(n_chain):
+                for i in range(n_step):
+                    shuffled[c, i] = shuffled[c, i][rs.permutation(ploidy)]
+            f0 = mt.burn(case["burn"]).posterior_frequencies()
+            f1 = GenotypeAllelesMultiTrace(shuffled, llks, case["n_allele"]).burn(case["burn"]).posterior_frequencies()
+            for name, a, b in zip(("frequency", "count", "occurrence"), f0, f1):
+                if not np.allclose(a, b, atol=1e-12):
+                    problems.append(Problem("call:posterior_frequencies:storage_order", "allele %s changes when the alleles of each step are stored in another order: %s vs %s" % (name, np.round(a, 6).tolist(), np.round(b, 6).tolist())))
+                    break
     return problems
 
 
